@@ -21,6 +21,8 @@ THEOREMS = [
     "PyTrie.Props.C10.nodes_loop_is_preorder",
     "PyTrie.Props.C10.raw_nodes_loop_refines",
     "PyTrie.Props.C10.raw_nodes_is_preorder",
+    "PyTrie.Props.C10.raw_items_is_items",
+    "PyTrie.Props.C10.raw_items_exact",
     "PyTrie.Props.C10.raw_nodes_loop_partial",
     "PyTrie.Props.C10.raw_nodes_partial",
     "PyTrie.Props.NonVacuity8.nodes_preorder_witness",
@@ -102,6 +104,7 @@ def run_case(case):
     nodes = guard("nodes()", lambda: list(it.nodes()))
     if items is not None:
         res.emit("hx.items 0", ";".join("%s=%s" % (hx(k), hx(v)) for k, v in items) if items else "-")
+        res.emit("hx.itemsd 0", ";".join("%s=%s" % (hx(k), hx(v)) for k, v in items) if items else "-")
         if items != [(k, model[k]) for k in skeys]:
             res.fail("items-wrong", "items() = %r, contents in key order are %r" % (items, [(k, model[k]) for k in skeys]))
     if keys is not None and keys != skeys:
